@@ -9,13 +9,15 @@ RULE = (
     "tuple in which the unresolvable ID sits at each position k, unknown / blank targets, unknown / "
     "blank / missing story references, identical and blank swap operands), Hypothesis single steps "
     "with fault-heavy and self-referential references on rich running orders, and Hypothesis "
-    "histories (failures from reached states); plus non-strict collection merges with any number "
+    "histories (failures from reached states); a directed scope of unusual payloads (duplicate / ID-less / missing carried elements at every "
+    "payload position for replace, insert, append and the item kinds; roStorySend without or with two "
+    "storyBody elements; odd metadata) where only atomicity is judged; plus non-strict collection merges with any number "
     "and placement of failing messages (metamorphic: result == merge of only the messages that did "
     "not raise).  Oracle: str(ro) immediately before `ro += msg` == str(ro) after the exception "
     "propagated, for any exception type.  Non-trivial = the merge raised; distinct = distinct "
     "(state text, message text) digests.")
 ASSUMPTIONS = ['an exception of any type counts (the type itself is C12\'s business)']
-MANDATORY = ['raised', 'ItemMoveMultiple:fault-at-k>1', 'EAStoryMove:fault-at-k>1',
+MANDATORY = ['raised', 'malformed-payload', 'ItemMoveMultiple:fault-at-k>1', 'EAStoryMove:fault-at-k>1',
              'EAItemMove:fault-at-k>1', 'EAStorySwap:swap-self', 'EAItemSwap:swap-self',
              'EAStorySwap:second-operand-unresolved', 'EAItemSwap:second-operand-unresolved',
              'collection:non-strict-with-failures']
@@ -132,6 +134,72 @@ def shard_collections(args):
     return col
 
 
+def shard_malformed(args):
+    """Messages that are classifiable but carry an unusual / invalid payload, so that kinds
+    which normally cannot fail midway may raise late.  Only atomicity is judged here (the
+    exception type for messages that are not schema-shaped is nobody's business)."""
+    from vlib import build as B
+    from vlib.build import E, T, P
+    from vlib.findings import Collector
+    col = Collector(PROP)
+    sids = ['A', 'B', 'C', 'D']
+    ro_xml = gen.ro_with_layout(sids, 'mixed', items_for={'B': ['I0', 'I1', 'I2'], 'C': ['I0']})
+
+    def st(sid, items=()):
+        return gen.plain_story(sid, items)
+    noid = B.mk_story(None, slug='no id')
+    noid_item = B.mk_item(None, slug='no id')
+    bodies = []
+    for tgt in ('A', 'B', 'D'):
+        # a payload element that is a duplicate / invalid, at every position of the payload
+        for bad in (lambda: st('C'), lambda: st(tgt), lambda: noid, lambda: st('N1')):
+            for pos in range(3):
+                pl = [st('N1'), st('N2')]
+                pl.insert(pos, bad())
+                bodies += [B.story_replace('RO1', tgt, pl), B.ea_story_replace('RO1', tgt, pl),
+                           B.story_insert('RO1', tgt, pl), B.ea_story_insert('RO1', tgt, pl)]
+        bodies += [B.story_replace('RO1', tgt, []), B.ea_story_replace('RO1', tgt, []),
+                   B.story_insert('RO1', tgt, []), B.ea_story_insert('RO1', tgt, [])]
+        # roStorySend without a storyBody, with an empty one, with two
+        b = B.story_send('RO1', tgt, body=[P('x')])
+        b.remove(b.find('storyBody'))
+        bodies.append(b)
+        b2 = B.story_send('RO1', tgt, body=[P('x')])
+        b2.append(E('storyBody', P('second')))
+        bodies.append(b2)
+        bodies.append(B.story_send('RO1', tgt, body=[]))
+    bodies += [B.story_append('RO1', [st('N1'), noid, st('N2')]), B.story_append('RO1', [st('N1'), st('A')]),
+               B.story_append('RO1', [])]
+    for ref in ('I0', 'I1', 'I2', ''):
+        for bad in (lambda: B.mk_item('I2'), lambda: noid_item, lambda: B.mk_item('J1')):
+            for pos in range(3):
+                pl = [B.mk_item('J1'), B.mk_item('J2')]
+                pl.insert(pos, bad())
+                bodies += [B.item_insert('RO1', 'B', ref, pl), B.ea_item_insert('RO1', 'B', ref, pl)]
+                if ref:
+                    bodies += [B.item_replace('RO1', 'B', ref, pl), B.ea_item_replace('RO1', 'B', ref, pl)]
+        if ref:
+            bodies += [B.item_replace('RO1', 'B', ref, []), B.ea_item_replace('RO1', 'B', ref, [])]
+    # metadata / roReplace with odd children
+    bodies += [B.metadata_replace('RO1', [T('roChannel', 'x'), E('mosExternalMetadata'), T('roChannel', 'y')]),
+               B.metadata_replace('RO1', [E('story', T('storyID', 'A'))]),
+               B.ro_replace('RO1', [st('N1'), noid]), B.ro_replace('RO1', [])]
+    for body in bodies:
+        case = {'ro_xml': ro_xml, 'msg_xml': B.tostring(B.envelope(body, 3100))}
+        try:
+            ev = drive.eval_step(case)
+        except Exception:
+            # the reference model does not cover documents that are not schema-shaped
+            col.excluded['malformed message outside the model'] += 1
+            continue
+        raised = ev.obs.exc is not None
+        col.record(case, raised, ['malformed-payload', 'malformed:raised' if raised else 'malformed:accepted'],
+                   judge(ev), key=drive.ev_key(ev))
+    col.scopes.append('atomicity under unusual payloads: duplicate / ID-less / missing elements at every payload position '
+                      'for replace, insert, append, item insert/replace, roStorySend without or with two storyBody, odd metadata')
+    return col
+
+
 def run(tier, seed, procs):
     quick = tier == 'quick'
     N, M, K = (3, 3, 3) if quick else (5, 5, 4)
@@ -148,6 +216,7 @@ def run(tier, seed, procs):
     cols += drive.pool_map(history.shard_history,
                            [(MOD, runs, steps, seed * 1000 + 500 + i, {'faults': 'heavy'})
                             for i in range(hs)], procs)
+    cols += drive.pool_map(shard_malformed, [None], 1)
     cs, cn = (4, 60) if quick else (16, 3000)
     cols += drive.pool_map(shard_collections, [(cn, seed * 1000 + 800 + i) for i in range(cs)], procs)
     cols += drive.pool_map(drive.shard_enum_stale, [(MOD, 'story', i, 2 if quick else 3) for i in range(11)], procs)
